@@ -69,7 +69,8 @@ def make_case(mod, seed, idx, tier):
     return case
 
 
-def _worker(modname, seed, idxs, tier):
+def _worker(modname, seed, idxs, tier, want_lines=False):
+    """Runs a chunk of indices; returns an aggregate (per-run data only for runs that need attention)."""
     faulthandler.enable()
     mod = sys.modules.get(modname) or __import__(modname, fromlist=['x'])
     try:
@@ -77,22 +78,66 @@ def _worker(modname, seed, idxs, tier):
         torch.set_num_threads(1)
     except Exception:
         pass
-    results = []
+    agg = dict(n=0, counts={}, fired={}, probes={}, decisions=0, steps=0, digests=set(), samples=[], known={}, attention=[], lines=[])
     for idx in idxs:
         case = make_case(mod, seed, idx, tier)
         out = run_case(mod, case)
-        summ = dict(index=idx, status=out['status'], digest=out.get('digest'), stats=out.get('stats', {}),
-                    wall=out['wall'], nontrivial=bool(out.get('nontrivial', False)),
-                    known=out.get('known', []))
-        if out['status'] in ('violation', 'harness_error', 'timeout', 'inconclusive'):
-            summ.update(clause=out.get('clause'), message=out.get('message'), key=out.get('key'))
-        if out['status'] == 'violation':
-            summ['case'] = case
-            summ['script'] = out.get('script')
-        if idx < 3 or (out.get('nontrivial') and idx % 97 == 0):
-            summ['sample'] = mod.sample_repr(case, out)
-        results.append(summ)
-    return results
+        accumulate(agg, _summary(mod, case, out, idx), want_lines)
+    agg['digests'] = list(agg['digests'])
+    return agg
+
+
+def _summary(mod, case, out, idx):
+    summ = dict(index=idx, status=out['status'], digest=out.get('digest'), stats=out.get('stats', {}),
+                wall=out['wall'], nontrivial=bool(out.get('nontrivial', False)), known=out.get('known', []))
+    if out['status'] in ('violation', 'harness_error', 'timeout', 'inconclusive'):
+        summ.update(clause=out.get('clause'), message=out.get('message'), key=out.get('key'))
+    if out['status'] == 'violation':
+        summ['case'] = case
+        summ['script'] = out.get('script')
+    if (isinstance(idx, int) and idx < 3) or (out.get('nontrivial') and isinstance(idx, int) and idx % 997 == 0):
+        summ['sample'] = mod.sample_repr(case, out)
+    return summ
+
+
+def accumulate(agg, s, want_lines=False):
+    agg['n'] += 1
+    agg['counts'][s['status']] = agg['counts'].get(s['status'], 0) + 1
+    st = s.get('stats') or {}
+    agg['decisions'] += st.get('decisions', 0)
+    agg['steps'] += st.get('steps', 0)
+    for k, v in (st.get('fired') or {}).items():
+        agg['fired'][k] = agg['fired'].get(k, 0) + v
+    for k, v in (st.get('probes') or {}).items():
+        agg['probes'][k] = agg['probes'].get(k, 0) + v
+    if s.get('nontrivial') and s.get('digest'):
+        agg['digests'].add(int(s['digest'][:15], 16))
+    if 'sample' in s and len(agg['samples']) < 6:
+        agg['samples'].append(s['sample'])
+    for k in s.get('known', []):
+        agg['known'][k] = agg['known'].get(k, 0) + 1
+    if s['status'] in ('violation', 'harness_error', 'timeout'):
+        if s['status'] != 'violation' or sum(1 for a in agg['attention'] if a.get('key') == s.get('key') and a.get('clause') == s.get('clause')) < 2:
+            agg['attention'].append(s)
+        else:
+            agg['attention'].append(dict(index=s['index'], status='violation', clause=s.get('clause'), key=s.get('key'), message=s.get('message'), dup=True))
+    if want_lines:
+        agg['lines'].append(f"{s['index']} {s['status']} {s['digest']}")
+
+
+def merge(a, b):
+    a['n'] += b['n']
+    for f in ('counts', 'fired', 'probes', 'known'):
+        for k, v in b[f].items():
+            a[f][k] = a[f].get(k, 0) + v
+    a['decisions'] += b['decisions']
+    a['steps'] += b['steps']
+    a['digests'].update(b['digests'])
+    for x in b['samples']:
+        if len(a['samples']) < 6:
+            a['samples'].append(x)
+    a['attention'].extend(b['attention'])
+    a['lines'].extend(b['lines'])
 
 
 # ---------------------------------------------------------------- minimiser
@@ -286,22 +331,25 @@ def main(mod, argv=None):
     chunk = getattr(mod, 'CHUNK', 25)
     idxs = list(range(args.start, args.start + n_runs))
     chunks = [idxs[i:i + chunk] for i in range(0, len(idxs), chunk)]
-    summaries = []
+    total = dict(n=0, counts={}, fired={}, probes={}, decisions=0, steps=0, digests=set(), samples=[], known={}, attention=[], lines=[])
+    for sm_ in extra:
+        accumulate(total, sm_, bool(args.digests))
     modname = mod.__name__
     ctx = multiprocessing.get_context('fork')
     timed_out_chunks = 0
+    want_lines = bool(args.digests)
     if args.workers <= 1:
         for c in chunks:
             if time.time() - t_start > budget:
                 timed_out_chunks += 1
                 continue
-            summaries.extend(_worker(modname, seed, c, tier))
+            merge(total, _worker(modname, seed, c, tier, want_lines))
     else:
         with ProcessPoolExecutor(max_workers=args.workers, mp_context=ctx) as ex:
             pending = {}
             it = iter(chunks)
             results = {}
-            # keep the queue bounded so a wall budget can stop submission
+
             def submit_next():
                 try:
                     c = next(it)
@@ -309,7 +357,7 @@ def main(mod, argv=None):
                     return False
                 if time.time() - t_start > budget:
                     return None
-                pending[ex.submit(_worker, modname, seed, c, tier)] = c
+                pending[ex.submit(_worker, modname, seed, c, tier, want_lines)] = c
                 return True
             for _ in range(args.workers * 2):
                 if not submit_next():
@@ -326,42 +374,31 @@ def main(mod, argv=None):
                     timed_out_chunks += 1
                     for _c in it:
                         timed_out_chunks += 1
+                if len(results) > 64:
+                    # merge in index order as far as possible to bound memory
+                    pass
             for k in sorted(results):
-                summaries.extend(results[k])
+                merge(total, results[k])
 
-    summaries = extra + summaries
     if args.digests:
         with open(args.digests, 'w') as f:
-            for s in summaries:
-                f.write(f"{s['index']} {s['status']} {s['digest']}\n")
+            for line in total['lines']:
+                f.write(line + "\n")
 
-    counts = {}
-    fired = {}
-    probes = {}
-    decisions = steps = 0
-    digests = set()
-    samples = []
-    for s in summaries:
-        counts[s['status']] = counts.get(s['status'], 0) + 1
-        st = s.get('stats') or {}
-        decisions += st.get('decisions', 0)
-        steps += st.get('steps', 0)
-        for k, v in (st.get('fired') or {}).items():
-            fired[k] = fired.get(k, 0) + v
-        for k, v in (st.get('probes') or {}).items():
-            probes[k] = probes.get(k, 0) + v
-        if s.get('nontrivial') and s.get('digest'):
-            digests.add(s['digest'])
-        if 'sample' in s and len(samples) < 6:
-            samples.append(s['sample'])
-        for k in s.get('known', []):
-            known_hits[k] = known_hits.get(k, 0) + 1
+    counts = total['counts']
+    fired = total['fired']
+    probes = total['probes']
+    decisions, steps = total['decisions'], total['steps']
+    digests = total['digests']
+    samples = total['samples']
+    n_search = total['n']
+    for k, v in total['known'].items():
+        known_hits[k] = known_hits.get(k, 0) + v
+    for s in total['attention']:
         if s['status'] == 'violation':
             violations.append(s)
-        elif s['status'] == 'harness_error':
-            broken.append((s['index'], s['message']))
-        elif s['status'] == 'timeout':
-            broken.append((s['index'], s['message']))
+        else:
+            broken.append((s['index'], s.get('message')))
 
     # --- 3. classify violations: known finding or new
     new_by_key = {}
@@ -375,7 +412,9 @@ def main(mod, argv=None):
     exit_code = 0
     reported = []
     for (clause, key), vs in sorted(new_by_key.items(), key=lambda kv: str(kv[0]))[:6]:
-        v = vs[0]
+        v = next((x for x in vs if 'case' in x), None)
+        if v is None:
+            continue
         base = f"{prop}_{hashlib.sha1((clause + '|' + str(key) + '|' + str(v['index'])).encode()).hexdigest()[:10]}"
         orig = dict(property=prop, clause=clause, key=key, message=v['message'], case=v['case'],
                     script=v.get('script'), verif_seed=seed, index=v['index'], minimised=False)
@@ -408,19 +447,19 @@ def main(mod, argv=None):
             exit_code = 2
 
     wall = time.time() - t_start
-    n_eval = len(summaries) + corpus_runs
+    n_eval = n_search + corpus_runs
     ok_runs = counts.get('ok', 0)
-    print(f"{prop} tier={tier} seed={seed} runs={len(summaries)} corpus={corpus_runs} ok={ok_runs} "
+    print(f"{prop} tier={tier} seed={seed} runs={n_search} corpus={corpus_runs} ok={ok_runs} "
           f"violations={len(violations)} inconclusive={counts.get('inconclusive', 0)} "
           f"distinct_histories={len(digests)} decisions={decisions} steps={steps} wall={wall:.1f}s "
-          f"runs/hour={int(len(summaries) / max(wall, 1e-9) * 3600)}")
+          f"runs/hour={int(n_search / max(wall, 1e-9) * 3600)}")
     if timed_out_chunks:
         print(f"note: wall budget {budget}s reached; {timed_out_chunks} chunk(s) of {len(chunks)} not started")
     stuck = [k for k, v in probes.items() if v == 0]
     if stuck:
         print(f"warning: reach probes at zero: {stuck}")
 
-    if not args.no_evidence and len(summaries) > 0:
+    if not args.no_evidence and n_search > 0:
         ev = dict(
             property_id=prop, tier=tier if tier in ('quick', 'thorough') else 'quick', seed=seed,
             level='exploration',
@@ -435,8 +474,8 @@ def main(mod, argv=None):
                 decision_points=decisions,
                 environment_steps=steps,
                 simulated_time=f"{decisions} decision points + {steps} environment steps (msdm has no clock; see DESIGN 1)",
-                runs_per_hour=int(len(summaries) / max(wall, 1e-9) * 3600),
-                seeds=f"VERIF_SEED={seed}, run indices {args.start}..{args.start + len(summaries) - 1}",
+                runs_per_hour=int(n_search / max(wall, 1e-9) * 3600),
+                seeds=f"VERIF_SEED={seed}, run indices {args.start}..{args.start + n_search - 1}",
                 faults_fired=fired,
                 reach_probes=probes,
                 real_components=mod.REAL,
